@@ -41,6 +41,7 @@ import CaddyModel.C16.GlueProps
 import CaddyModel.C16.BindProps
 import CaddyModel.C16.ServerOptsProps
 import CaddyModel.C16.AddrProps
+import CaddyModel.C16.NormalizeProps
 
 namespace CaddyModel.C16
 
